@@ -32,6 +32,7 @@ int  rRmdir(const char* a);
 
 int  rStatIsDir(const char* a);             // 1 dir, 0 other/none (follows links)
 int  rExists(const char* a);                // stat succeeds
+bool lastCallWasFaulted(const char* name);     // the most recent file-system call of the run was hit by a fault and its name contains `name`
 const std::string& faultedCalls();           // names of the calls hit by an injected fault in this run, space separated
 std::vector<std::string> dirNames(const std::string& path);   // entries of a directory (following a link to it), sorted, without . and ..
 bool sameFile(const char* a, const char* b); // both exist and are the same inode (following links)
